@@ -16,28 +16,70 @@ open Sketchnu
 /-- an occurrence of a pattern in a prefix is an occurrence in the whole file at the same offset -/
 theorem occursAt_take (pat f : BytesL) (L q : Nat) (h : occursAt pat (f.take L) q = true) :
     occursAt pat f q = true ∧ q + pat.length ≤ L := by
-  sorry
+  rw [occursAt_iff] at h
+  rw [List.length_take] at h
+  obtain ⟨h1, h2⟩ := h
+  have hq : q + pat.length ≤ L := by omega
+  rw [slice_take f L q pat.length hq] at h1
+  exact ⟨(occursAt_iff _ _ _).2 ⟨h1, by omega⟩, hq⟩
 
 /-- no end record can be found in a strict prefix -/
 theorem endRecData_prefix (f : BytesL) (hu : uniqueSig f = true) (L : Nat) (hL : L < f.length) :
     endRecData (f.take L) = none := by
-  sorry
+  obtain ⟨h22, huniq, hocc, hz⟩ := uniqueSig_spec f hu
+  have hlen : (f.take L).length = L := by rw [List.length_take]; omega
+  have h4 : sigEOCD.length = 4 := rfl
+  unfold endRecData
+  simp only [hlen, sizeEndCentDir]
+  split
+  · rename_i h
+    obtain ⟨ha, hb, _⟩ := h
+    have ho : occursAt sigEOCD (f.take L) (L - 22) = true := by
+      rw [occursAt_iff]
+      exact ⟨by rw [h4]; exact hb, by rw [hlen, h4]; omega⟩
+    have h1 := (occursAt_take _ _ _ _ ho).1
+    have h2 := huniq _ h1
+    omega
+  · split
+    · rfl
+    · rename_i s hs
+      have ho := rfind_sound _ _ _ hs
+      have ho := occursAt_drop _ _ _ _ (by decide) ho
+      obtain ⟨ho1, ho2⟩ := occursAt_take _ _ _ _ ho
+      have h2 := huniq _ ho1
+      rw [if_pos]
+      rw [List.length_drop, hlen]
+      omega
 
 /-- every strict prefix of a saved file fails to load -/
 theorem C20_prefix (f : BytesL) (hstart : f.take 4 = sigLocal) (hu : uniqueSig f = true) (L : Nat)
     (hL : L < f.length) : (npLoad (f.take L)).isError = true := by
-  sorry
+  rw [npLoad_take_of_none f hstart L hL (endRecData_prefix f hu L hL)]
+  split
+  · rfl
+  · split <;> rfl
 
 /-- … with the documented error classes -/
 theorem C20_prefix_classes (f : BytesL) (hstart : f.take 4 = sigLocal) (hu : uniqueSig f = true) (L : Nat)
     (hL : L < f.length) :
     npLoad (f.take L) = (if L = 0 then .eofError else if L < 4 then .valueError else .badZipFile) := by
-  sorry
+  exact npLoad_take_of_none f hstart L hL (endRecData_prefix f hu L hL)
 
 /-- only the complete file opens, at its end record -/
 theorem C20_complete (f : BytesL) (hstart : f.take 4 = sigLocal) (hu : uniqueSig f = true) :
     npLoad f = .opened (f.length - sizeEndCentDir) := by
-  sorry
+  obtain ⟨h22, huniq, hocc, hz⟩ := uniqueSig_spec f hu
+  have hne : f ≠ [] := by
+    intro h
+    rw [h] at h22
+    simp at h22
+  have hb := ((occursAt_iff _ _ _).1 hocc).1
+  have h4 : sigEOCD.length = 4 := rfl
+  rw [h4] at hb
+  have he : endRecData f = some (f.length - 22) := by
+    unfold endRecData
+    exact if_pos ⟨h22, hb, hz⟩
+  simp [npLoad, hne, hstart, he, sizeEndCentDir]
 
 /-- the signature has no self-overlap (why no occurrence can straddle the body / record boundary) -/
 example : ∀ j ∈ [1, 2, 3], sigEOCD.drop j ≠ sigEOCD.take (4 - j) := by decide
